@@ -11,6 +11,8 @@ evaluated on them by vm_compute and the comparison is a Coq boolean:
     those sub keys, ties closer than 1e-3 not judged (HSamp);
   * the config's logits = the model's scaled_circulant, exactly (HLogits).
 Direct oracle (no model): numpy float64 brute-force enumeration from the config's logits.
+Every check is judged on every bundle, including asymmetric transition tables (wrapped bands): since
+the repair F37 the forward pass contracts over the previous state and the sampler is exact there too.
 """
 import itertools
 import json
@@ -26,7 +28,6 @@ from .hmm import c_cfg, c_enc, c_ints, c_key, c_expg, c_mat, c_float, c_int, cli
 
 SIG = [0.25, 0.5, 0.75, 1.0, 1.25, 1.5, 2.0]
 HEADER = "From Coq Require Import List NArith QArith Qcanon Uint63.\nFrom Model Require Import Key HMM.\nOpen Scope uint63_scope."
-SIGNATURE = "hmm-ffbs-transposed-transition"
 
 CORE = [  # (N, kt, ko, st, so, T)
     (3, 1, 1, 0.5, 0.75, 3),
@@ -77,6 +78,12 @@ def run_workers(bundles, nproc=12, timeout=1500):
     # one thread per worker: the calls are Python-dispatch bound and the workers run side by side
     env["XLA_FLAGS"] = env.get("XLA_FLAGS", "") + " --xla_cpu_multi_thread_eigen=false intra_op_parallelism_threads=1"
     env.update({"OMP_NUM_THREADS": "1", "OPENBLAS_NUM_THREADS": "1", "MKL_NUM_THREADS": "1"})
+    # XLA's persistent cache of COMPILED kernels (keyed by the HLO that tracing /repo's current code produces, the
+    # jax version and the flags): the implementation still runs in full on every check, only the compilation of its
+    # hundreds of tiny op-by-op kernels (80% of a cold worker's time) is reused by later runs.  Safe to delete.
+    (core.OUT / "jaxcache").mkdir(parents=True, exist_ok=True)
+    env.update({"JAX_COMPILATION_CACHE_DIR": str(core.OUT / "jaxcache"), "JAX_PERSISTENT_CACHE_MIN_COMPILE_TIME_SECS": "0",
+                "JAX_PERSISTENT_CACHE_MIN_ENTRY_SIZE_BYTES": "0"})
 
     def run(ix):
         jobs = [bundles[i] for i in ix]
@@ -156,20 +163,12 @@ def oracle_bundle(b, r, ctx, stats):
             lp = r["post"][m][lats.index(tuple(v))]
             if not abs(w - lp) <= hmm.WTOL * max(1.0, abs(lp)):
                 fails.append((f"random_weighted(key={root}) returned weight {w!r} for {v}, estimate_logpdf of that sequence is {lp!r} ({cfgd(b)}, obs={ys})", case, None))
-            if sym:
-                why = hmm.oracle_samp(ref, ys, r["gumbel"][k], v)
-                if why:
-                    fails.append((f"random_weighted(key={root}) returned {v}: {why} ({cfgd(b)}, obs={ys})", case, None))
+            why = hmm.oracle_samp(ref, ys, r["gumbel"][k], v)
+            if why:
+                fails.append((f"random_weighted(key={root}) returned {v}: {why} ({cfgd(b)}, obs={ys})", case, None))
         if filt_bad:
-            if sym:
-                fails.append((filt_bad, {"kind": "filt", "cfg": cfgd(b), "obs": ys, "root": b["roots"][0]}, None))
-            else:
-                stats["asym_filter_defect"] += 1
-                fails.append((filt_bad, {"kind": "filt", "cfg": cfgd(b), "obs": ys, "root": b["roots"][0]}, SIGNATURE))
-        elif not sym:
-            stats["asym_filter_ok"] += 1
-        r.setdefault("filt_ok", {})[m] = filt_bad is None
-    if r.get("freq") is not None and sym:
+            fails.append((filt_bad, {"kind": "filt", "cfg": cfgd(b), "obs": ys, "root": b["roots"][0]}, None))
+    if r.get("freq") is not None:
         fq = b["freq"]
         ys = b["obs"][fq["obs"]]
         z, why = hmm.oracle_freq(ref, ys, r["freq"], fq["K"])
@@ -217,15 +216,13 @@ def run(ctx):
         ctx.cov["malformed_stream"] = (mal or {}).get("malformed", mal)
     for e in werrs[:2]:
         ctx.fail("tie", "implementation worker failed: " + e[-600:])
-    stats = {"post_checked": 0, "samp_checked": 0, "asym_filter_defect": 0, "asym_filter_ok": 0, "freq_worst_z": 0.0, "freq_tests": 0}
+    stats = {"post_checked": 0, "samp_checked": 0, "freq_worst_z": 0.0, "freq_tests": 0}
     terms, meta = [], []
     header = [HEADER, "Import ListNotations."]
     nval = 0
     files = set()
     nsym = nasym = 0
-    registered = any(SIGNATURE in f.get("signatures", []) for f in ctx.findings)
     noracle = 0
-    known_examples = []
     for bi, (b, r) in enumerate(zip(bundles, results)):
         if r is None:
             continue
@@ -243,9 +240,6 @@ def run(ctx):
         nsym += sym
         nasym += (not sym)
         for what, case, sig in fails:
-            if sig == SIGNATURE and not registered:
-                known_examples.append(what)
-                continue
             noracle += 1
             if noracle <= 4:
                 ctx.fail("oracle", what, case=case, signature=sig)
@@ -260,16 +254,9 @@ def run(ctx):
         ctx.fail("correspondence", "C-hmm case file did not evaluate: " + e)
     badvals = 0
     nshown = 0
-    fixed_seen = []
     for n_, i in enumerate(mism):
         bi, kind, a, k, nv = meta[i]
         b, r = bundles[bi], results[bi]
-        if kind in ("filt", "samp") and not hmm.symmetric_tables(r["tables"]) and b["T"] >= 2 and r["filt_ok"].get(a):
-            # outside the region the model mirrors the transposed forward pass; if the implementation's
-            # filters are the exact ones there, the recorded defect has been repaired: not an alarm
-            fixed_seen.append((cfgd(b), b["obs"][a]))
-            badvals += nv      # not validated against the model, but not an alarm either
-            continue
         badvals += nv
         nshown += 1
         if nshown > 4:
@@ -290,13 +277,6 @@ def run(ctx):
             what = f"model coq/model/HMM.v and implementation disagree ({kind}) on {cfgd(b)}, obs={ys}: {shown}"
         ctx.fail("correspondence", what, case=case)
     nval = sum(m[-1] for m in meta)
-    if fixed_seen:
-        ctx.log(f"note: on {len(fixed_seen)} cases with an asymmetric transition table the forward filters are now the exact ones "
-                f"(e.g. {fixed_seen[0]}): the recorded transposed-transition defect no longer reproduces there; coq/model/HMM.v "
-                "(alpha_step) still mirrors the old forward pass and C37_ffbs_is_posterior now holds on more inputs than claimed")
-    if known_examples:
-        ctx.log(f"note: {len(known_examples)} observation sequences in {nasym} asymmetric-transition configurations reproduce the recorded defect "
-                f"(FFBS forward pass uses the transposed transition table; notes/C37.md, witness/w37_hmm_ffbs_transposed_transition.py); e.g. {known_examples[0][:260]}")
     ctx.cov["evaluations"] = nval
     ctx.cov["traces_validated_against_impl"] = nval - badvals
     ctx.cov["coq_cases"] = len(terms)
